@@ -146,15 +146,18 @@ type World struct {
 	TiKVScanFaultArmed       bool
 	TiKVScanFaultFired       int
 	TiKVSecondaryCommitsHeld int
-	TiKVGetFaultFired        int
-	HeldSyncs                []HeldSync // answers of the leader to follower reads that the follower has not applied yet
-	Fatals                   []string   // klog.Fatal calls of node code (the node crashed there)
-	OnFatal                  func(node int, msg string)
-	FineClock                bool // never let the clock hop far while tasks may become eligible (electors)
-	YieldOnSetRevision       bool // also yield when an unregistered goroutine (the elector\'s OnStartedLeading) sets the revision
-	inflight                 map[string]*Rec
-	probeIdx                 int
-	probeW                   int
+	// TiKVOracleOutage: that many of the next timestamp requests of the TiKV clients fail (below the adapter)
+	TiKVOracleOutage   int
+	TiKVOracleFailed   int
+	TiKVGetFaultFired  int
+	HeldSyncs          []HeldSync // answers of the leader to follower reads that the follower has not applied yet
+	Fatals             []string   // klog.Fatal calls of node code (the node crashed there)
+	OnFatal            func(node int, msg string)
+	FineClock          bool // never let the clock hop far while tasks may become eligible (electors)
+	YieldOnSetRevision bool // also yield when an unregistered goroutine (the elector\'s OnStartedLeading) sets the revision
+	inflight           map[string]*Rec
+	probeIdx           int
+	probeW             int
 }
 
 type clientState struct {
